@@ -76,7 +76,7 @@ prop( 'C03', [ 'W-ATTR', 'D-VALIDATE', 'R-SNAPSHOT', 'D-TYPE', 'T-TYPENAMES', 'T
       not_decided='read-your-writes over request histories, slice index arithmetic, symbolic-name resolution, per-element isolation (value/history dependent).',
       technique='who-may-write analysis via service feasibility on the CFG; AST shape checks; table checks' )
 
-prop( 'C06', [ 'X-SERVICES', 'P-REPLYBIT', 'P-ONE', 'P-PROCEED', 'D-ECHO', 'S-STATUS', 'P-ROUTE' ],
+prop( 'C06', [ 'X-SERVICES', 'P-REPLYBIT', 'P-ONE', 'P-PROCEED', 'D-ECHO', 'S-STATUS', 'P-ROUTE', 'E-REPLY' ],
       decides='X-SERVICES: for Object, Message_Router, Connection_Manager and Logix the registered service parsers, the services '
               'request() dispatches and the services produce() encodes agree, and every *_RPY constant is *_REQ | 0x80; '
               'P-REPLYBIT: on every path of every handler to the reply producer the reply bit is set at most once, exactly once on '
@@ -87,7 +87,7 @@ prop( 'C06', [ 'X-SERVICES', 'P-REPLYBIT', 'P-ONE', 'P-PROCEED', 'D-ECHO', 'S-ST
               'returns True on every normal exit after producing data.enip.input (no implicit None, which the server loop reads as "send nothing, end the '
               'session"), proceed starts True and is cleared only by Unregister, and nothing before that can raise; D-ECHO: the response is built as a structural copy of the request encapsulation, no '
               'server-side store to sender_context/command/options, session_handle only in the Register branch (re-drawn while zero/in use), '
-              'Unregister sets proceed False and stores no payload; S-STATUS: any exception below UCMM ends as a non-zero status, never escapes.  P-ONE also: the payload sent is exactly this iteration\'s enip_encode result (no accumulated buffer) and every normal path from a truthy enip_process to the next iteration passes the send.  P-ROUTE: the try whose handler deletes the shared route connection and re-raises encloses the routed send, the wait and both checks of the response (present, status 0).',
+              'Unregister sets proceed False and stores no payload; S-STATUS: any exception below UCMM ends as a non-zero status, never escapes.  P-ONE also: the payload sent is exactly this iteration\'s enip_encode result (no accumulated buffer) and every normal path from a truthy enip_process to the next iteration passes the send.  P-ROUTE: the try whose handler deletes the shared route connection and re-raises encloses the routed send, the wait and both checks of the response (present, status 0).  E-REPLY: the CIP-level interpretation of a completely received frame fails into a reply with non-zero encapsulation status (a status-converting handler, not a re-raise) - currently a known finding.',
       not_decided='framing of reply values, randomness of session handles, socket-level pipelining behaviour (dynamic).',
       technique='sibling exhaustiveness (set comparison of folded constants); path effect counting on the CFG; must-pass-through; zero-count store rules' )
 
